@@ -587,6 +587,9 @@ pub struct Supervisor {
 pub enum ForkOutcome {
     Answer(Json),
     Fault(Fault),
+    /// the child made no progress for the wall-clock cap WITHOUT using CPU time: the machine
+    /// is starved or the child is blocked outside the subject - never a verdict
+    Stalled,
 }
 
 #[derive(Default)]
@@ -626,7 +629,7 @@ impl Supervisor {
     }
 
     /// Evaluate `[from, to)` in a forked child. `body` runs in the child only.
-    pub fn fork_run(
+    fn fork_run_once(
         &self,
         set: usize,
         from: u64,
@@ -683,6 +686,7 @@ impl Supervisor {
         let mut last_change = std::time::Instant::now();
         let mut cpu_at_change = child_cpu_ticks(pid);
         let mut timed_out = false;
+        let mut stalled = false;
         let mut buf = [0u8; 65536];
         // A case is a hang when the child burns `case_timeout` of *CPU time* on it
         // (robust against a starved machine), or shows no progress for 20x that
@@ -713,8 +717,14 @@ impl Supervisor {
                 cpu_at_change = child_cpu_ticks(pid);
             } else if last_change.elapsed() > case_timeout {
                 let cpu = child_cpu_ticks(pid);
-                if cpu.saturating_sub(cpu_at_change) >= cpu_limit_ticks || last_change.elapsed() > wall_cap {
+                if cpu.saturating_sub(cpu_at_change) >= cpu_limit_ticks {
                     timed_out = true;
+                    unsafe { libc::kill(pid, libc::SIGKILL) };
+                    break;
+                }
+                if last_change.elapsed() > wall_cap {
+                    // no progress and (almost) no CPU used: not a spin inside the subject
+                    stalled = true;
                     unsafe { libc::kill(pid, libc::SIGKILL) };
                     break;
                 }
@@ -741,6 +751,9 @@ impl Supervisor {
             }
             ForkOutcome::Fault(Fault { set, idx: idx1 - 1, stage, kind, stderr: stderr.clone() })
         };
+        if stalled {
+            return ForkOutcome::Stalled;
+        }
         if timed_out {
             return fault(FaultKind::Timeout);
         }
@@ -761,6 +774,31 @@ impl Supervisor {
             }
             Err(e) => vp_core::machinery_error(&format!("forked child wrote unparsable answer: {e}")),
         }
+    }
+
+    /// `fork_run_once`, retried when the child stalls without using CPU (an overloaded
+    /// machine, a blocked fork). Three stalls in a row end the run as a machinery error:
+    /// a hang verdict always requires that the child burned its CPU budget on one case.
+    pub fn fork_run(
+        &self,
+        set: usize,
+        start: u64,
+        end: u64,
+        case_timeout: Duration,
+        body: &mut dyn FnMut(u64, u64, &Progress) -> Json,
+    ) -> ForkOutcome {
+        for attempt in 0..3 {
+            match self.fork_run_once(set, start, end, case_timeout, body) {
+                ForkOutcome::Stalled => {
+                    eprintln!("[drv] child for set {set} cases {start}..{end} stalled without using CPU (attempt {}); retrying", attempt + 1);
+                    std::thread::sleep(Duration::from_secs(2 + 5 * attempt as u64));
+                }
+                other => return other,
+            }
+        }
+        vp_core::machinery_error(&format!(
+            "forked child for set {set} cases {start}..{end} made no progress without using CPU in 3 attempts (machine overloaded or child blocked outside the subject); this is not a verdict"
+        ))
     }
 
     /// Evaluate `[start, end)`, isolating, confirming and stepping over faults.
@@ -803,6 +841,7 @@ impl Supervisor {
                 }
                 stats.forks += 1;
                 match self.fork_run(set, a, b, case_timeout, body) {
+                    ForkOutcome::Stalled => unreachable!("fork_run retries or exits"),
                     ForkOutcome::Answer(j) => merge(j),
                     ForkOutcome::Fault(f) => {
                         if f.idx < a || f.idx >= b {
@@ -818,6 +857,7 @@ impl Supervisor {
                         } else {
                             stats.forks += 1;
                             match self.fork_run(set, idx, idx + 1, case_timeout, body) {
+                                ForkOutcome::Stalled => unreachable!("fork_run retries or exits"),
                                 ForkOutcome::Answer(j) => {
                                     match f.kind {
                                         FaultKind::Timeout => stats.unconfirmed_timeouts += 1,
